@@ -8,6 +8,10 @@ HOISTS = [
     {'rule': 'R7', 'regex': r'write!\(\s*out\s*,\s*"\{:02x\}"\s*,\s*(.*?)\)\?', 'replace': r'hoist_write_hex2(out, \1)?', 'count': '*'},
     {'rule': 'R7', 'regex': r'write!\(\s*out\s*,\s*"#\{:02x\}"\s*,\s*(.*?)\)\?', 'replace': r'hoist_write_hash_hex2(out, \1)?', 'count': '*'},
     {'rule': 'R7', 'regex': r'write!\(\s*out\s*,\s*"\{\}"\s*,\s*(.*?)\)\?', 'replace': r'hoist_write_char(out, \1)?', 'count': '*'},
+    # fallback: any OTHER one-argument format string. The helper appends `fmt_spec(<format string>, <argument>)`, an
+    # uninterpreted function: a format this unit does not know can never prove a spelling postcondition (=> the change is
+    # reported at `*_spelling`), and never stops the verifier as an unreadable `write!`.
+    {'rule': 'R7', 'regex': r'write!\(\s*out\s*,\s*(r?"[^"]*")\s*,\s*([^,;]*?)\)\?', 'replace': r'hoist_write_fmt(out, \1, \2)?', 'count': '*'},
     {'rule': 'R7', 'regex': r'out\.write_all\((.*?)\)\?', 'replace': r'hoist_write_all(out, \1)?', 'count': '*'},
     # R5: `for &x in e {` -> `for x_ in e { let x = *x_;`
     {'rule': 'R5', 'regex': r'for &(\w+) in (.*?) \{', 'replace': r'for \1_ in \2 { let \1 = *\1_;', 'count': '*'},
@@ -46,7 +50,7 @@ UNIT = {
      ] + HOISTS + [
         # R1 ghost injections
         {'rule': 'R1', 'regex': r'\A\s*\{', 'replace': '{ proof { lemma_lits(); }'},
-        {'rule': 'R1', 'regex': r'(in self\.data\.as_slice\(\) \{ let b = \*b_;)',
+        {'rule': 'R1', 'regex': r'(in self\.data\.as_slice\(\) \{ let \w+ = \*\w+;)',
          'replace': r'\1 proof { lemma_hex_step(self.data@, it.index@ as int); lemma_lit_step(self.data@, it.index@ as int); }',
          'count': 2},
         {'rule': 'R1', 'regex': r'hoist_write_lit\(out, (">"|r"\)")\)', 'replace': r'proof { assert(self.data@.take(self.data@.len() as int) =~= self.data@); } hoist_write_lit(out, \1)', 'count': 2},
@@ -68,7 +72,7 @@ UNIT = {
         # cannot attribute a failure whose primary span lies inside a std macro expansion to the extracted item.
         {'rule': 'R4', 'regex': r'panic!\(("[^"]*")\)', 'replace': r'verif_panic(\1)', 'count': '*'},
         {'rule': 'R1', 'regex': r'\A\s*\{', 'replace': '{ proof { lemma_lits(); }'},
-        {'rule': 'R1', 'regex': r'(for \w+ in [^{]*\{)( let b = \*b_;)?',
+        {'rule': 'R1', 'regex': r'(for \w+ in [^{]*\{)( let \w+ = \*\w+;)?',
          'replace': r'\1\2 proof { if it.index@ < encode_utf8(s@).len() { lemma_name_step(encode_utf8(s@), it.index@ as int); } }'},
         {'rule': 'R1', 'regex': r'Ok\(\(\)\)\s*\}\s*\Z', 'replace': 'proof { assert(encode_utf8(s@).take(encode_utf8(s@).len() as int) =~= encode_utf8(s@)); } Ok(()) }'},
      ]},
